@@ -90,7 +90,7 @@ impl Package {
         Ok(FileIterator {
             file_entries,
             archive,
-            count: 0,
+            finished: false,
         })
     }
 
@@ -1218,7 +1218,7 @@ impl PackageMetadata {
 pub struct FileIterator<'a> {
     file_entries: Vec<FileEntry>,
     archive: Box<dyn io::Read + 'a>,
-    count: usize,
+    finished: bool,
 }
 
 #[derive(Debug)]
@@ -1231,37 +1231,47 @@ impl Iterator for FileIterator<'_> {
     type Item = Result<RpmFile, Error>;
 
     fn next(&mut self) -> Option<Self::Item> {
-        if self.count >= self.file_entries.len() {
+        // the archive ends with a trailer entry; after an error its position is undefined
+        if self.finished {
             return None;
         }
 
-        // @todo: probably safe to hand out a reference instead of cloning, just a bit more painful
-        let file_entry = self.file_entries[self.count].clone();
-        self.count += 1;
-
         let reader = payload::Reader::new(&mut self.archive, &self.file_entries);
 
-        match reader {
+        let result = match reader {
             Ok(mut entry_reader) => {
                 if entry_reader.is_trailer() {
+                    self.finished = true;
                     return None;
                 }
 
-                let mut content = Vec::new();
-
-                if let Err(e) = entry_reader.read_to_end(&mut content) {
-                    return Some(Err(Error::Io(e)));
+                // The archive does not have to hold every file of the header (%ghost files are not
+                // archived), so entries are paired with their metadata by name, not by position.
+                // @todo: probably safe to hand out a reference instead of cloning, just a bit more painful
+                match entry_reader.file_index(&self.file_entries) {
+                    Some(idx) => {
+                        let file_entry = self.file_entries[idx].clone();
+                        let mut content = Vec::new();
+                        entry_reader
+                            .read_to_end(&mut content)
+                            .and_then(|_| entry_reader.finish())
+                            .map(|_| RpmFile {
+                                metadata: file_entry,
+                                content,
+                            })
+                    }
+                    None => Err(io::Error::new(
+                        io::ErrorKind::InvalidData,
+                        "Archive entry does not belong to any file of the header",
+                    )),
                 }
-                if let Err(e) = entry_reader.finish() {
-                    return Some(Err(Error::Io(e)));
-                }
-
-                Some(Ok(RpmFile {
-                    metadata: file_entry,
-                    content,
-                }))
             }
-            Err(e) => Some(Err(Error::Io(e))),
+            Err(e) => Err(e),
+        };
+
+        if result.is_err() {
+            self.finished = true;
         }
+        Some(result.map_err(Error::Io))
     }
 }
